@@ -171,7 +171,8 @@ def run_dir(kind, tier, seed, C):
                  3: "C12: after a successful default run an entity lacks certificate or key material, or a hashed certificate does not chain",
                  4: "C14: a run replaced or dropped an existing key / request, or the new certificate does not carry its public key",
                  5: "C15: a failed write was reported as a successful run",
-                 6: "C10: an existing certificate file was replaced although the answer at the prompt was not y"}
+                 6: "C10: an existing certificate file was replaced although the answer at the prompt was not y",
+                 7: "C11: the entities a successful run wrote are not the ones its flags demand in the state the history had reached (regen relation)"}
         found = re.findall(r"\((\d+), \(\[([\d; ]*)\], \[([\d;, ()]*)\]\)\)", body)
         err = count_check(o, len(found), name) or err
         for j, steps_s, rules_s in found:
